@@ -1362,8 +1362,12 @@ class Enumerator:
                     return self._inline(target, term, st3, k, ph)
                 out = []
                 for o in self._new_overrides(callees, st3):
-                    # virtual dispatch: the receiver may be an instance of a subclass that (newly) overrides the method
-                    out.extend(self._inline(o, term, st3.emit(Ev("dispatch", N(o.qualname), n, st3.fn, {"callee": o})), k, ph))
+                    # virtual dispatch: the receiver may be an instance of a subclass that (newly) overrides the method.  On this
+                    # variant the call *is* a call of the override (a helper introduced later: its body is what counts)
+                    ev_o = Ev("call", term, n, st2.fn, {"awaited": awaited, "callee": type(callees)("typed", [o]),
+                                                      "env": st2.env, "try": self._try_depth > 0})
+                    st_o = st2.emit(ev_o)
+                    out.extend(self._inline(o, term, st_o.emit(Ev("dispatch", N(o.qualname), n, st_o.fn, {"callee": o})), k, ph))
                 res = k(st3, ph)
                 return out + res + self._raise_variants(st3, n)
 
